@@ -18,7 +18,7 @@ FILES = {
     "internal/verifdrv/vfd/vfd.go": "vfd/vfd.go",
     "internal/networking/handler/ce/zz_verif_ce_test.go": "ce/zz_verif_ce_test.go",
 }
-CLASSES = ["valid", "trail", "trunc_at", "trunc_in", "disc", "len_pm", "nonmin", "flip", "att_len", "att_len2", "pad_bits"]
+CLASSES = ["valid", "trail", "trunc_at", "trunc_in", "disc", "len_pm", "len_set", "nonmin", "flip", "att_len", "att_len2", "pad_bits"]
 # the handlers build mock bundles and run the erasure stand-in: a few MiB per call whatever the input
 ALLOC_K = 24 << 20
 ALLOC_C = 4096
